@@ -247,6 +247,8 @@ func (s *SpecValidator) validateDuplicatePropertyNames() *Result {
 			for _, v := range dups {
 				pns = append(pns, v.Definition+"."+v.Name)
 			}
+			// properties are collected from maps: sort names for a stable, reproducible message
+			sort.Strings(pns)
 			res.AddErrors(duplicatePropertiesMsg(k, pns))
 		}
 
